@@ -18,6 +18,7 @@
 -/
 import FFS.Model.AbiIO
 import FFS.Props.C03
+import FFS.Props.C02
 namespace FFS.Props.C11
 open FFS FFS.Model.Abi FFS.Gen.AbiCodecFacts
 
@@ -1084,6 +1085,19 @@ theorem reencode_stable_partial (ns : List String) (ts : List Ty) (cs : List CV)
     decodeParams ts (Spec.Abi.enc (.tuple ns ts) (.kids cs)) 0 = .ok (.kids cs) := by
   have := FFS.Props.C03.decodeParams_enc ns ts cs [] [] hv hw hs
   simpa using this
+
+/-- … and composed with C02: under both properties' validity / size side conditions (C02's are about the table's
+    encoders and 2^256-byte layouts, C03's about its decoders and the 2^32-byte layouts the decoder accepts) the
+    returned tree **is** re-encoded by the model's encoder, and decoding that encoding returns the same tree. -/
+theorem reencode_decode_partial (ns : List String) (ts : List Ty) (cs : List CV) (block : Bytes) (off : Nat)
+    (hv2 : FFS.Props.C02.ValidTys ts) (hv3 : FFS.Props.C03.ValidTys ts)
+    (hdec : decodeParams ts block off = .ok (.kids cs)) (hw : Spec.Abi.wellTypedEach ts cs = true)
+    (hs2 : FFS.Props.C02.Small (.tuple ns ts) (.kids cs)) (hs3 : FFS.Props.C03.Small (.tuple ns ts) (.kids cs)) :
+    ∃ e, encode (.tuple ns ts) (.kids cs) = .ok (e, Spec.Abi.isDynamic (.tuple ns ts)) ∧
+      decodeParams ts e 0 = .ok (.kids cs) := by
+  have hvt : FFS.Props.C02.ValidTy (.tuple ns ts) := by rw [FFS.Props.C02.ValidTy]; exact hv2
+  have hwt : Spec.Abi.WellTyped (.tuple ns ts) (.kids cs) = true := by rw [Spec.Abi.WellTyped]; exact hw
+  exact ⟨_, FFS.Props.C02.encode_eq_spec _ _ hvt hwt hs2, reencode_stable_partial ns ts cs block off hv3 hdec hw hs3⟩
 
 /-! ### non-vacuity: concrete inputs on which the hypotheses hold (evaluated by the kernel) -/
 def okB {α : Type} : Outcome α → Bool | .ok _ => true | _ => false
